@@ -7,6 +7,7 @@ use simcore::rng::Rng;
 use std::collections::BTreeMap;
 
 pub mod base;
+pub mod cache;
 pub mod cfg;
 pub mod control;
 pub mod routing;
@@ -22,11 +23,18 @@ pub fn generate(property: &str, tier: &str, seed: u64, idx: u64) -> Spec {
     let mut spec = match property {
         "C01" => base::c01(&mut rng, thorough, idx),
         "C02" => base::c02(&mut rng, thorough, idx),
-        "C03" => base::c03(&mut rng, thorough, idx),
+        "C03" => {
+            if idx % 4 == 3 {
+                cache::c03_cache(&mut rng, thorough)
+            } else {
+                base::c03(&mut rng, thorough, idx)
+            }
+        }
+        "C08" => cache::c08(&mut rng, thorough, idx),
         "C04" => base::c04(&mut rng, thorough, idx),
         "C12" => base::c12(&mut rng, thorough, idx),
         "SELFTEST" => {
-            let props = ["C01", "C02", "C03", "C04", "C12"];
+            let props = ["C01", "C02", "C03", "C04", "C12", "C08"];
             let p = props[(idx % props.len() as u64) as usize];
             return generate(p, tier, seed ^ 0x5e1f, idx / props.len() as u64);
         }
